@@ -328,6 +328,12 @@ def _combine_internals(fi: FuncInfo) -> List[Ob]:
         k += 1
         key = f"consume-loop#{k}"
         it = src(loop.iter)
+        itx = loop.iter
+        # a copy made in the loop header: `for so in list(<selection>)` / `tuple(…)` / `[x for x in <selection>]`
+        if isinstance(itx, ast.Call) and isinstance(itx.func, ast.Name) and itx.func.id in ("list", "tuple") and len(itx.args) == 1 and not itx.keywords and src(itx.args[0]) in sel_names:
+            it = src(itx.args[0])
+        elif isinstance(itx, ast.ListComp) and len(itx.generators) == 1 and not itx.generators[0].ifs and src(itx.elt) == src(itx.generators[0].target) and src(itx.generators[0].iter) in sel_names:
+            it = src(itx.generators[0].iter)
         if it in sel_names:
             obs.append(ok("BLOCK", fi, key, P, loop, f"blocks are consumed only for `{it}`"))
         else:
